@@ -109,18 +109,18 @@ def event(e):
 def case_term(c):
     return ("{| k_dv := %s; k_oc := %s; k_xid := %d;\n   k_init := %s;\n   k_events := %s;\n   k_final := %s;\n   k_undo := %s |}" % (
         coq_bool(c["dv"]), coq_bool(c["oc"]), c["xid"], tabs(c["init"]),
-        "[" + ";\n     ".join(event(e) for e in c["events"]) + "]", tabs(c["final"]),
+        "[" + ";\n     ".join(event(e) for e in c["events"] or [] or []) + "]", tabs(c["final"]),
         coq_list(["(%d, %s)" % (u["b"], coq_bool(u["normal"])) for u in c.get("undo") or []])))
 
 
 def slim(c):
     """replay object: the generated plan (self-contained) + what was observed"""
     return {"plans": [c["plan"]], "stream": c["stream"], "name": c["name"], "oracle": c["oracle"],
-            "observed_events": [{k: v for k, v in e.items() if k not in ("tabs",)} for e in c["events"]], "notes": c.get("notes")}
+            "observed_events": [{k: v for k, v in e.items() if k not in ("tabs",)} for e in c["events"] or []], "notes": c.get("notes")}
 
 
 SIZES = {  # per property: harness arguments per tier
-    "C01": {"quick": dict(n01=700, n10r=0, n10f=12, n10m=0, n09=0, ncor=20, kf=4),
+    "C01": {"quick": dict(n01=500, n10r=0, n10f=10, n10m=30, n09=0, ncor=20, kf=4),
             "thorough": dict(n01=5000, n10r=0, n10f=60, n10m=0, n09=0, ncor=100, kf=0)},
     "C10": {"quick": dict(n01=0, n10r=150, n10f=40, n10m=80, n09=0, ncor=0, kf=6, n10x=100),
             "thorough": dict(n01=0, n10r=1200, n10f=300, n10m=800, n09=0, ncor=0, kf=0, n10x=1000)},
@@ -207,11 +207,11 @@ def run_property(chk, prop, prop_file, req, rule, assumptions, only=None):
             for s in b["stmts"]:
                 dist["stmt." + s["kind"]] = dist.get("stmt." + s["kind"], 0) + 1
             dist["branch." + ("explicit" if b["explicit"] else "autocommit")] = dist.get("branch." + ("explicit" if b["explicit"] else "autocommit"), 0) + 1
-        for e in c["events"]:
+        for e in c["events"] or []:
             if e["e"] == "rollback":
                 k = "delivery." + ("fault" if e["fault"] >= 0 else "clean") + (".status%d" % e["out"])
                 dist[k] = dist.get(k, 0) + 1
-    nontriv = [c for c in clean if any(e["e"] == "branch" and e.get("images") for e in c["events"])]
+    nontriv = [c for c in clean if any(e["e"] == "branch" and e.get("images") for e in c["events"] or [])]
     chk.coverage.update({
         "trusted_base": TRUSTED,
         "evaluations": len(cases),
